@@ -659,10 +659,27 @@ pub fn final_checks(world: &WorldRef, hist: &HistoryRef) -> Value {
                             })
                         })
                     });
+                    // cause attribution (KF19): the leader's expiry sweeps run only in tick(), and the tick deadline is the
+                    // replication timer, which every AppendEntries send pushes out: under steady replication traffic
+                    // (gaps shorter than the heartbeat interval) no tick fires for the whole wait
+                    let tick_starved = {
+                        let o = oracle.lock().unwrap();
+                        let hb = w.plan.knobs.heartbeat_ms;
+                        let sends: Vec<u64> = o.ae_send_times.get(&op.node).map(|v| v.iter().copied().filter(|t| *t + hb >= op.invoke_ms && *t <= op.ret_ms).collect()).unwrap_or_default();
+                        let mut max_gap = 0u64;
+                        let mut prev = op.invoke_ms.min(sends.first().copied().unwrap_or(op.invoke_ms));
+                        for t in sends.iter() {
+                            max_gap = max_gap.max(t.saturating_sub(prev));
+                            prev = *t;
+                        }
+                        max_gap = max_gap.max(op.ret_ms.saturating_sub(prev).saturating_sub(250));
+                        !sends.is_empty() && max_gap < hb && role_at_invoke == ROLE_LEADER && !stepdown
+                    };
                     oracle.lock().unwrap().violate(
                         "C30",
                         kind,
                         json!({"op": op.id, "kind": format!("{:?}", op.kind), "node": op.node, "path": op.path,
+                               "tick_starved_by_replication_traffic": tick_starved,
                                "invoke_ms": op.invoke_ms, "waited_ms": op.ret_ms - op.invoke_ms,
                                "role_at_invoke": role_at_invoke, "candidate_during_wait": cand,
                                "stepdown_during_wait": stepdown, "is_write": is_write, "entry_committed": committed,
